@@ -15,9 +15,10 @@ dest=$(grep -o 'crates/[A-Za-z_/]*tests/[A-Za-z0-9_]*\.rs' "$OUT/demo_path.txt" 
 pkg=bourse-book; case "$dest" in crates/step_sim/*) pkg=bourse-de;; crates/macros/*) pkg=bourse-macros;; esac
 tname=$(basename "$dest" .rs)
 mkdir -p "$(dirname "$dest")"; cp "$demo" "$dest"
-cargo test -q -p $pkg --test "$tname" --offline >/tmp/mut/confirm.log 2>&1; r_clean=$?
+feat=""; grep -q -- "--features verif" "$OUT/demo_path.txt" && feat="--features verif"
+cargo test -q -p $pkg $feat --test "$tname" --offline >/tmp/mut/confirm.log 2>&1; r_clean=$?
 git apply "$OUT/patch.diff" || { echo "patch does not apply"; exit 2; }
-cargo test -q -p $pkg --test "$tname" --offline >>/tmp/mut/confirm.log 2>&1; r_mut=$?
+cargo test -q -p $pkg $feat --test "$tname" --offline >>/tmp/mut/confirm.log 2>&1; r_mut=$?
 rm -f "$dest"
 cargo test -q --workspace --no-fail-fast --offline >/tmp/mut/confirm_suite.log 2>&1; r_suite=$?
 npass=$(grep -h "^test result" /tmp/mut/confirm_suite.log | awk '{s+=$4} END{print s}')
